@@ -225,8 +225,8 @@ def run_array(env, res, case, want_readme=False, census=False):
             if step.startswith('x:'):
                 lastx = step
             live = h if step in ('h:app', 'h:app2', 'h:iterapp', 'h:trunc') else None
-            if case.get('hold') and step == 'h:trunc' and False:
-                live = None
+            if case.get('hold'):
+                live = None         # what the holding handle's open map shows after external changes is not judged
             if not check_array_disk(res, D, path, None, model, want=('ifd', 'fresh'), mechprefix=tag):
                 return
             if live is not None:
@@ -362,8 +362,10 @@ def run_ragged(env, res, case):
             except Exception as e:
                 res.fail(f'{tag}:fresh-open-failed', f'{type(e).__name__}: {e}')
                 return
+            # (in held-context histories only files and fresh handles are judged, not the holding handle's open maps)
             if not check_model(res, 'fresh', fresh, model, dtype, atom) or \
-                    (step in ('h:app', 'h:iterapp', 'h:trunc') and not check_model(res, 'live', h, model, dtype, atom)):
+                    (step in ('h:app', 'h:iterapp', 'h:trunc') and not case.get('hold')
+                     and not check_model(res, 'live', h, model, dtype, atom)):
                 for f in res.fails:
                     f['mech'] = f'{tag}:' + f['mech']
                 return
